@@ -14,9 +14,9 @@ RULES = {
     'R2': 'the size reported to msg_process is cut by size >= sizeof(header), hdr->size >= sizeof(header) and hdr->size <= size (bytes received), and size itself by <= max_msg_size (explicitly, since a peek into the shared ring returns the length word the peer wrote); the reported size is a local loaded from the header once, because on shared memory the header can change between two loads',
     'R3': 'handle_new_connection is reached only after the whole fixed-size record was received, credentials were obtained and hdr.id is AUTHENTICATE; every other edge closes the socket; the record is freed on every path',
     'R5': 'every send that reads from receive_buf uses a length bounded by its capacity (request.max_msg_size)',
-    'R4': 'the capacity given to the receive slot is the allocation size of receive_buf; that size is at least what the receive path writes unconditionally (the header peek)',
+    'R4': 'the capacity given to the receive slot is the allocation size of receive_buf; that size is at least what the receive path writes unconditionally (the header peek), and the peek itself is made only into a buffer whose capacity was tested to hold it (the client hands its own buffer in)',
 }
-FLOORS = {'R1': 6, 'R2': 5, 'R3': 5, 'R4': 3, 'R5': 1}
+FLOORS = {'R1': 6, 'R2': 5, 'R3': 5, 'R4': 4, 'R5': 1}
 
 
 def run(ctx):
@@ -347,6 +347,23 @@ def r4(ctx):
               'receive_buf is at least %s bytes, the unconditional header peek writes %d' % (lb, peek),
               'receive_buf can be smaller than the %d bytes the receive path peeks unconditionally: the size comes from the peer\'s handshake '
               '(lower bound %s)' % (peek, lb))
+    # the same peek on the client side lands in the buffer the application handed to qb_ipcc_recv / qb_ipcc_event_recv: decided
+    # where it is made, by a test of the capacity parameter
+    bufp, capp = f.params[1]['n'], f.params[2]['n']
+    fixed = [ev for ev in f.calls('recv') if cval(unwrap(ev.args[2])) is not None and mentions_var(ev.args[1], bufp) or
+             (cval(unwrap(ev.args[2])) is not None and derives(f, ev.args[1], ev, lambda x: mentions_var(x, bufp)))]
+    if not fixed:
+        raise AnalysisBroken('qb_ipc_us_recv_at_most: no fixed-size receive into the caller\'s buffer')
+    for ev in fixed:
+        k = cval(unwrap(ev.args[2]))
+
+        def fits(a, fb, k=k):
+            return a.ls == capp and a.rc is not None and ((a.op == '>=' and a.rc >= k) or (a.op == '>' and a.rc >= k - 1))
+        path = f.uncut_path(ev, fits)
+        ctx.check('R4', 'fixed-size-receive-fits-the-caller-buffer', path is None, ev,
+                  'the %d-byte header peek into the caller\'s buffer is made only when the capacity is at least %d' % (k, k),
+                  'the %d-byte header peek is written into the caller\'s buffer whatever its capacity: qb_ipcc_recv / qb_ipcc_event_recv into a buffer shorter than a header overflow it (and then report -EMSGSIZE)' % k,
+                  {'path': f.path_lines(path) if path else None})
 
 
 def _lower_bound(prog, e):
